@@ -80,3 +80,6 @@ func TableParse(md protoreflect.MessageDescriptor, bookOpts *tableaupb.WorkbookO
 
 // SetConfgenYield installs the scheduler called at confgen's yield points.
 func SetConfgenYield(f func(site string, key string)) { confgen.VerifYield = f }
+
+// SqueezeText is xproto.SqueezeText.
+func SqueezeText(text string) string { return xproto.SqueezeText(text) }
